@@ -31,17 +31,38 @@
 (*                             (persist) or extended (expireAt) by an 'X' record - which carries no value    *)
 (*                             and is an orphan once the entry was skipped - is lost by a reopen after the   *)
 (*                             ORIGINAL deadline although the acknowledged state is permanent / later.       *)
+(*   Dev_CutCountsAppliedOnly  (seeded-change class) load() advances its "good offset" only for the records  *)
+(*                             it APPLIED: a record it legitimately skips - an orphan 'X' (expireAt/persist)  *)
+(*                             record for a key that a later 'D' deleted, replayed over a NEW snapshot after a *)
+(*                             kill between the snapshot rename and the log reset - is not counted, the        *)
+(*                             torn-tail cut then removes that many bytes from the END of a healthy log: the   *)
+(*                             last record(s) are gone / torn from the SECOND reopen on, and whatever is       *)
+(*                             acknowledged after the first reopen sits behind a torn record.                  *)
+(*   Dev_CompactInsideAppend   (seeded-change class) the size check maybeCompact() runs inside every          *)
+(*                             writeLogEntry().  clear() is LOG-FIRST (one 'D' per key while the map is still  *)
+(*                             full, pseudo step MemClear afterwards): a compaction in the middle of it        *)
+(*                             snapshots every key and resets the log - the keys deleted so far are back.      *)
+(* Size-triggered compaction: MaxLog > 0 is maxLogSizeBytes counted in records (background compaction off):   *)
+(* set / set-with-TTL / remove / setBatch / clear call maybeCompact() after their log writes (removeWithPrefix *)
+(* is one remove() per key; expireAt / persist never check) and run compactLocked() inline when the log is     *)
+(* longer than MaxLog.                                                                                        *)
 (* Clock: now = 0, or Late after TimePasses (once; also while the store is down).  Expiries are absolute    *)
 (* (KvOps); load() replays everything and drops the keys whose FINAL expiry has passed (Norm).               *)
 (* Generator mode (Emit = TRUE, MaxCrash = 0): every maximal history is printed as a driver case line; the   *)
 (* driver then crashes the REAL store at every file operation / byte cut of that history.                    *)
+(* GenFilter selects a directed family (ghost `mark`): "orphan" = histories with a compaction at whose rename  *)
+(* the log holds an 'X' record that a replay over the NEW snapshot skips and that is followed by further       *)
+(* records; "clear2" = histories with a clear() of a store holding at least two keys (run by the driver with   *)
+(* every log-size limit that falls between two records of the history).                                        *)
 EXTENDS KvOps, TLC
 
 CONSTANTS NK, NV, NE,                \* keys 1..NK, values 1..NV, expiry ids 1..NE
           MaxOps, MaxCrash,
           OpKinds,                   \* the operation kinds enabled in this configuration
           Dev_TornTailNotTruncated, Dev_TruncLogBeforeRename, Dev_SnapshotExpiryCheckedEarly,
-          Emit
+          Dev_CutCountsAppliedOnly, Dev_CompactInsideAppend,
+          MaxLog,                    \* size limit of the log in records (0 = never reached)
+          Emit, GenFilter            \* generator mode; "" | "orphan" | "clear2"
 
 Keys == 1..NK
 Vals == 1..NV
@@ -57,8 +78,9 @@ VARIABLES snap, log, tmp, logOpen,   \* the files (+ whether the append stream i
           up,                        \* process alive?
           base,                      \* ghost: map after the last completed operation (Abs baseline)
           nops, ncrash, ok,
-          hist, fhist                \* generator mode only: API history and the file operations it issued
-vars == <<snap, log, tmp, logOpen, mem, cur, pc, cnow, now, up, base, nops, ncrash, ok, hist, fhist>>
+          hist, fhist,               \* generator mode only: API history and the file operations it issued
+          mark                       \* generator mode only: the history belongs to the family GenFilter
+vars == <<snap, log, tmp, logOpen, mem, cur, pc, cnow, now, up, base, nops, ncrash, ok, hist, fhist, mark>>
 
 NoRec == [op |-> "-", k |-> 0, v |-> 0, e |-> 0, torn |-> "ok"]
 Rec(o, k, v, e) == [op |-> o, k |-> k, v |-> v, e |-> e, torn |-> "ok"]
@@ -81,6 +103,11 @@ Replay(m, lg) == IF lg = <<>> THEN m ELSE Replay(ApplyRec(m, Head(lg)), Tail(lg)
 GoodLen(lg) == IF \A i \in 1..Len(lg) : lg[i].torn = "ok" THEN Len(lg)
                ELSE (CHOOSE i \in 1..Len(lg) : lg[i].torn # "ok" /\ \A j \in 1..(i - 1) : lg[j].torn = "ok") - 1
 
+(* load() SKIPS record i (and goes on with the next one): the only such record a healthy store ever writes is  *)
+(* an 'X' record whose key is not there when it is replayed (m0 = the snapshot load() started from).            *)
+Skipped(m0, lg, i) == lg[i].op = "X" /\ ~Present(Replay(m0, SubSeq(lg, 1, i - 1)), lg[i].k)
+SkipsMid(m0, lg) == \E i \in 1..(Len(lg) - 1) : Skipped(m0, lg, i)
+
 (* ------------------------------------------------------------------ the API alphabet *)
 AllOps ==
     {Op("set", k, v, 0) : k \in Keys, v \in Vals}
@@ -95,8 +122,13 @@ Ops == {o \in AllOps : o.op \in OpKinds}
 
 Orders == {s \in [1..NK -> Keys] : \A i, j \in 1..NK : i # j => s[i] # s[j]}   \* unordered_map iteration orders
 
-(* file operations the code issues for operation o when the in-memory map is m (BEFORE the call) *)
-FileOps(o, m, ord, t) ==
+CompactSeq ==
+    IF Dev_TruncLogBeforeRename
+    THEN <<FOp("WriteTmp", NoRec), FOp("CloseLog", NoRec), FOp("TruncLog", NoRec), FOp("Rename", NoRec), FOp("OpenAppend", NoRec)>>
+    ELSE <<FOp("WriteTmp", NoRec), FOp("Rename", NoRec), FOp("CloseLog", NoRec), FOp("TruncLog", NoRec), FOp("OpenAppend", NoRec)>>
+
+(* the log records operation o appends when the in-memory map is m (BEFORE the call) *)
+Recs(o, m, ord, t) ==
     CASE o.op = "set"   -> <<FOp("Append", Rec("S", o.k, o.v, 0))>>
       [] o.op = "setx"  -> <<FOp("Append", Rec("E", o.k, o.v, Rel2(o.e, t)))>>
       [] o.op = "rm"    -> IF Present(m, o.k) THEN <<FOp("Append", Rec("D", o.k, 0, 0))>> ELSE <<>>
@@ -109,36 +141,52 @@ FileOps(o, m, ord, t) ==
                            [i \in 1..Len(sel) |-> FOp("Append", Rec("D", sel[i], 0, 0))]
       [] o.op = "rmp"   -> LET sel == SelectSeq(ord, LAMBDA k : k \in SeqRange(o.ks) /\ LiveK(m, k, t)) IN
                            [i \in 1..Len(sel) |-> FOp("Append", Rec("D", sel[i], 0, 0))]
-      [] o.op = "compact" ->
-            IF Dev_TruncLogBeforeRename
-            THEN <<FOp("WriteTmp", NoRec), FOp("CloseLog", NoRec), FOp("TruncLog", NoRec), FOp("Rename", NoRec),
-                   FOp("OpenAppend", NoRec)>>
-            ELSE <<FOp("WriteTmp", NoRec), FOp("Rename", NoRec), FOp("CloseLog", NoRec), FOp("TruncLog", NoRec),
-                   FOp("OpenAppend", NoRec)>>
       [] OTHER -> <<>>
+
+(* appends with the size check after each one; n = records in the log before.  -> [ops, n] *)
+RECURSIVE Inl(_, _)
+Inl(recs, n) == IF recs = <<>> THEN [ops |-> <<>>, n |-> n]
+                ELSE IF n + 1 > MaxLog
+                     THEN LET r == Inl(Tail(recs), 0) IN [ops |-> <<Head(recs)>> \o CompactSeq \o r.ops, n |-> r.n]
+                     ELSE LET r == Inl(Tail(recs), n + 1) IN [ops |-> <<Head(recs)>> \o r.ops, n |-> r.n]
+
+(* file operations (and the pseudo step MemClear) the code issues for operation o; n = Len(log) at the call *)
+FileOps(o, m, ord, t, n) ==
+    LET recs == Recs(o, m, ord, t)
+        post == IF o.op = "clear" THEN <<FOp("MemClear", NoRec)>> ELSE <<>>
+        endCheck == o.op \in {"set", "setx", "batch", "clear"} \/ (o.op \in {"rm", "rmp"} /\ recs # <<>>) IN
+    IF o.op = "compact" THEN CompactSeq
+    ELSE IF MaxLog = 0 THEN recs \o post
+    ELSE IF Dev_CompactInsideAppend \/ o.op = "rmp"
+         THEN LET r == Inl(recs, n) IN r.ops \o post \o (IF endCheck /\ r.n > MaxLog THEN CompactSeq ELSE <<>>)
+         ELSE recs \o post \o (IF endCheck /\ n + Len(recs) > MaxLog THEN CompactSeq ELSE <<>>)
 
 Init == /\ snap = [present |-> FALSE, m |-> EmptyMap] /\ log = <<>> /\ tmp = NoTmp /\ logOpen = TRUE
         /\ mem = EmptyMap /\ cur = Nop /\ pc = <<>> /\ cnow = 0 /\ now = 0 /\ up = TRUE /\ base = EmptyMap
-        /\ nops = 0 /\ ncrash = 0 /\ ok = TRUE /\ hist = <<>> /\ fhist = <<>>
+        /\ nops = 0 /\ ncrash = 0 /\ ok = TRUE /\ hist = <<>> /\ fhist = <<>> /\ mark = FALSE
 
 (* ------------------------------------------------------------------ API call / return *)
 Call(o, ord) ==
     /\ up /\ cur = Nop /\ pc = <<>> /\ nops < MaxOps
     /\ cur' = o /\ cnow' = now
-    /\ mem' = EffT(o, mem, now)            \* the code updates memory first, then writes the log
-    /\ pc' = FileOps(o, mem, ord, now)
+    /\ mem' = (IF o.op = "clear" THEN mem ELSE EffT(o, mem, now))   \* memory first, then the log - except clear()
+    /\ pc' = FileOps(o, mem, ord, now, Len(log))
+    /\ (GenFilter = "" \/ pc' # <<>>)      \* directed families: no calls that touch no file
+    /\ mark' = (mark \/ (GenFilter = "orphan" /\ o.op = "compact" /\ SkipsMid([k \in Keys |-> Norm(mem[k], now)], log))
+                     \/ (GenFilter = "clear2" /\ o.op = "clear" /\ Cardinality({k \in Keys : Present(mem, k)}) >= 2))
     /\ UNCHANGED <<snap, log, tmp, logOpen, now, up, base, nops, ncrash, ok, hist, fhist>>
 
 Ret == /\ up /\ cur # Nop /\ pc = <<>>
        /\ base' = EffT(cur, base, cnow)
        /\ cur' = Nop /\ nops' = nops + 1
        /\ hist' = (IF Emit THEN Append(hist, cur) ELSE hist)
-       /\ UNCHANGED <<snap, log, tmp, logOpen, mem, pc, cnow, now, up, ncrash, ok, fhist>>
+       /\ UNCHANGED <<snap, log, tmp, logOpen, mem, pc, cnow, now, up, ncrash, ok, fhist, mark>>
 
 (* ------------------------------------------------------------------ file operations, one action each *)
-Stepping(t) == /\ up /\ pc # <<>> /\ Head(pc).t = t /\ pc' = Tail(pc)
-               /\ fhist' = (IF Emit THEN Append(fhist, t) ELSE fhist)
-               /\ UNCHANGED <<mem, cur, cnow, now, up, base, nops, ncrash, ok, hist>>
+SteppingM(t) == /\ up /\ pc # <<>> /\ Head(pc).t = t /\ pc' = Tail(pc)
+                /\ fhist' = (IF Emit /\ t # "MemClear" THEN Append(fhist, t) ELSE fhist)
+                /\ UNCHANGED <<cur, cnow, now, up, base, nops, ncrash, ok, hist, mark>>
+Stepping(t) == SteppingM(t) /\ UNCHANGED mem
 
 StepAppend     == Stepping("Append") /\ logOpen /\ log' = Append(log, Head(pc).r) /\ UNCHANGED <<snap, tmp, logOpen>>
 StepWriteTmp   == Stepping("WriteTmp") /\ tmp' = [st |-> "full", m |-> [k \in Keys |-> Norm(mem[k], now)]]   \* survivors only
@@ -148,10 +196,11 @@ StepRename     == Stepping("Rename") /\ tmp.st = "full"
 StepCloseLog   == Stepping("CloseLog") /\ logOpen' = FALSE /\ UNCHANGED <<snap, log, tmp>>
 StepTruncLog   == Stepping("TruncLog") /\ log' = <<>> /\ UNCHANGED <<snap, tmp, logOpen>>
 StepOpenAppend == Stepping("OpenAppend") /\ logOpen' = TRUE /\ UNCHANGED <<snap, log, tmp>>
+StepMemClear   == SteppingM("MemClear") /\ mem' = EmptyMap /\ UNCHANGED <<snap, log, tmp, logOpen>>   \* clear(): _kv.clear() after the 'D' records
 
 (* ------------------------------------------------------------------ crashes and clean close *)
 Die == /\ up' = FALSE /\ pc' = <<>> /\ mem' = EmptyMap /\ logOpen' = FALSE
-       /\ UNCHANGED <<cur, cnow, now, base, nops, ok, hist, fhist>>
+       /\ UNCHANGED <<cur, cnow, now, base, nops, ok, hist, fhist, mark>>
 
 CrashBetween == /\ up /\ ncrash < MaxCrash /\ ncrash' = ncrash + 1 /\ Die
                 /\ UNCHANGED <<snap, log, tmp>>
@@ -170,7 +219,7 @@ CleanClose == /\ up /\ cur = Nop /\ pc = <<>> /\ nops < MaxOps /\ "reopen" \in O
               /\ up' = FALSE /\ logOpen' = FALSE /\ mem' = EmptyMap
               /\ nops' = nops + 1
               /\ hist' = (IF Emit THEN Append(hist, Op("reopen", 0, 0, 0)) ELSE hist)
-              /\ UNCHANGED <<snap, log, tmp, cur, pc, cnow, now, base, ncrash, ok, fhist>>
+              /\ UNCHANGED <<snap, log, tmp, cur, pc, cnow, now, base, ncrash, ok, fhist, mark>>
 
 (* ------------------------------------------------------------------ reopen = load + truncate + open append *)
 Reopen ==
@@ -178,26 +227,30 @@ Reopen ==
     /\ LET g   == GoodLen(log)
            m0  == IF ~snap.present THEN EmptyMap
                   ELSE IF Dev_SnapshotExpiryCheckedEarly THEN [k \in Keys |-> Norm(snap.m[k], now)] ELSE snap.m
-           rec == [k \in Keys |-> Norm(Replay(m0, SubSeq(log, 1, g))[k], now)] IN   \* expired keys dropped AFTER replay
+           rec == [k \in Keys |-> Norm(Replay(m0, SubSeq(log, 1, g))[k], now)]     \* expired keys dropped AFTER replay
+           ns  == Cardinality({i \in 1..g : Skipped(m0, log, i)}) IN                \* complete records load() skipped
        /\ mem' = rec
-       /\ log' = IF Dev_TornTailNotTruncated THEN log ELSE SubSeq(log, 1, g)
+       /\ log' = IF Dev_TornTailNotTruncated THEN log
+                 ELSE IF Dev_CutCountsAppliedOnly /\ ns > 0     \* the cut falls ns records short: a healthy record is torn
+                      THEN Append(SubSeq(log, 1, g - ns), [log[g - ns + 1] EXCEPT !.torn = "PartialBody"])
+                      ELSE SubSeq(log, 1, g)
        /\ ok' = (ok /\ \A k \in Keys : rec[k] \in AdmissibleT(base, cur, k, cnow, now))
        /\ base' = rec
     /\ nops' = IF cur # Nop THEN nops + 1 ELSE nops
     /\ cur' = Nop /\ up' = TRUE /\ logOpen' = TRUE
-    /\ UNCHANGED <<snap, tmp, pc, cnow, now, ncrash, hist, fhist>>
+    /\ UNCHANGED <<snap, tmp, pc, cnow, now, ncrash, hist, fhist, mark>>
 
 (* the clock jumps past the first deadline: as a step of the history while the store is idle, or unseen while it is down *)
 TimePasses == /\ now = 0 /\ "tick" \in OpKinds /\ now' = Late
               /\ \/ up /\ cur = Nop /\ pc = <<>> /\ nops < MaxOps /\ nops' = nops + 1
                     /\ hist' = (IF Emit THEN Append(hist, Op("tick", 0, 0, 0)) ELSE hist)
                  \/ ~up /\ ~Emit /\ UNCHANGED <<nops, hist>>
-              /\ UNCHANGED <<snap, log, tmp, logOpen, mem, cur, pc, cnow, up, base, ncrash, ok, fhist>>
+              /\ UNCHANGED <<snap, log, tmp, logOpen, mem, cur, pc, cnow, up, base, ncrash, ok, fhist, mark>>
 
 Next == \/ \E o \in Ops, ord \in Orders : Call(o, ord)
         \/ TimePasses
         \/ Ret
-        \/ StepAppend \/ StepWriteTmp \/ StepRename \/ StepCloseLog \/ StepTruncLog \/ StepOpenAppend
+        \/ StepAppend \/ StepWriteTmp \/ StepRename \/ StepCloseLog \/ StepTruncLog \/ StepOpenAppend \/ StepMemClear
         \/ CrashBetween \/ CrashInWriteTmp \/ \E kd \in TornKinds : CrashInAppend(kd)
         \/ CleanClose \/ Reopen
 Spec == Init /\ [][Next]_vars
@@ -206,7 +259,7 @@ Spec == Init /\ [][Next]_vars
 Inv_Recovered == ok
 Inv_MemIsBase == (up /\ cur = Nop) => \A k \in Keys : Norm(mem[k], now) = Norm(base[k], now)   \* the running process agrees with the baseline
 Inv_Files == \A i \in 1..Len(log) : log[i].torn # "ok" =>
-                 (Dev_TornTailNotTruncated \/ (i = Len(log) /\ ~up))        \* a torn record is only ever the tail of a dead store
+                 (Dev_TornTailNotTruncated \/ Dev_CutCountsAppliedOnly \/ (i = Len(log) /\ ~up))        \* a torn record is only ever the tail of a dead store
 
 (* ------------------------------------------------------------------ generator: one driver case line per history *)
 KV(ks, vs, i) == ToString(ks[i]) \o ":" \o ToString(vs[i])
@@ -225,5 +278,5 @@ RECURSIVE JoinOps(_)
 JoinOps(s) == IF s = <<>> THEN "" ELSE OpStr(Head(s)) \o (IF Len(s) > 1 THEN ";" ELSE "") \o JoinOps(Tail(s))
 RECURSIVE JoinS(_)
 JoinS(s) == IF s = <<>> THEN "" ELSE Head(s) \o (IF Len(s) > 1 THEN "," ELSE "") \o JoinS(Tail(s))
-EmitInv == (Emit /\ up /\ cur = Nop /\ nops = MaxOps) => PrintT("HIST " \o JoinOps(hist) \o " # " \o JoinS(fhist))
+EmitInv == (Emit /\ up /\ cur = Nop /\ nops = MaxOps /\ (GenFilter = "" \/ mark)) => PrintT("HIST " \o JoinOps(hist) \o " # " \o JoinS(fhist))
 =============================================================================
